@@ -44,7 +44,7 @@ type WTx struct {
 
 // WStep is one step of the wallet scenario.
 type WStep struct {
-	Kind string `json:"k"` // blk | fork | hold | step | sync | addr | probe | votes | restart
+	Kind string `json:"k"` // blk | fork | hold | step | sync | addr | probe | votes | restart | rescan
 	A    int    `json:"a,omitempty"`
 	B    int    `json:"b,omitempty"`
 	C    int    `json:"c,omitempty"`
@@ -88,7 +88,9 @@ func genWTxs(rt *rapid.T, max int) []WTx {
 
 func genWStep(rt *rapid.T) WStep {
 	st := WStep{}
-	switch rapid.IntRange(0, 13).Draw(rt, "stepkind") {
+	switch rapid.IntRange(0, 14).Draw(rt, "stepkind") {
+	case 14:
+		st.Kind = "rescan"
 	case 12:
 		st.Kind = "votes"
 		st.A = rapid.IntRange(0, 8).Draw(rt, "target")
@@ -144,12 +146,30 @@ func genWallet(rt *rapid.T) any {
 		var pat []WStep
 		pat = append(pat, WStep{Kind: "blk", Txs: []WTx{{Kind: "vote", A: rapid.IntRange(0, 7).Draw(rt, "a"), B: rapid.IntRange(0, 7).Draw(rt, "b")}}})
 		pat = append(pat, WStep{Kind: "fork", B: 3, Txs: genWTxs(rt, 2)})
-		for i, m := 0, rapid.IntRange(1, 4).Draw(rt, "rollbackblocks"); i < m; i++ {
+		m := rapid.IntRange(1, 4).Draw(rt, "rollbackblocks")
+		for i := 0; i < m; i++ {
 			txs := genWTxs(rt, 2)
 			txs = append(txs, WTx{Kind: rapid.SampledFrom([]string{"payfresh", "vetofresh", "vote"}).Draw(rt, "freshkind"), B: rapid.IntRange(0, 7).Draw(rt, "b"), C: rapid.IntRange(0, 5).Draw(rt, "c")})
 			pat = append(pat, WStep{Kind: "blk", Txs: txs})
 		}
-		pat = append(pat, WStep{Kind: "votes", A: 1}, WStep{Kind: "restart"})
+		stub := 1
+		if rapid.Bool().Draw(rt, "doublereorg") {
+			// two reorganisations in a row: first an empty branch at least as high abandons some of the
+			// blocks that have just spent fresh outputs (the wallet puts the spent outputs back), then the
+			// votes move the best chain down to the stub
+			pat = append(pat, WStep{Kind: "fork", A: rapid.IntRange(2, m+2).Draw(rt, "abandon"), B: rapid.IntRange(0, 1).Draw(rt, "by")})
+			stub = 2
+		}
+		pat = append(pat, WStep{Kind: "votes", A: stub}, WStep{Kind: "restart"})
+		p.Steps = append(p.Steps[:at:at], append(pat, p.Steps[at:]...)...)
+	}
+	// another share contains a reorganisation that happens while a wallet rescan (the rescan-wallet
+	// request) has not caught up yet: hold the updater, ask for the rescan, let a few commits through,
+	// deliver a competing branch, release
+	if rapid.IntRange(0, 3).Draw(rt, "rescanq") == 3 {
+		at := rapid.IntRange(0, len(p.Steps)).Draw(rt, "rescanat")
+		pat := []WStep{{Kind: "blk", Txs: genWTxs(rt, 3)}, {Kind: "hold"}, {Kind: "rescan"}, {Kind: "step", A: rapid.IntRange(0, 3).Draw(rt, "rescancommits")},
+			{Kind: "fork", A: rapid.IntRange(0, 3).Draw(rt, "rescanparent"), B: rapid.IntRange(0, 2).Draw(rt, "rescanextra"), C: 1, Txs: genWTxs(rt, 3)}, {Kind: "sync"}}
 		p.Steps = append(p.Steps[:at:at], append(pat, p.Steps[at:]...)...)
 	}
 	return p
@@ -1015,6 +1035,11 @@ func execWallet(c24, c25 bool) func(t *testing.T, plan any, r *simkit.Run) {
 					s.probe(st)
 				case "votes":
 					s.votes(st)
+				case "rescan":
+					wn.Wal.RescanBlocks()
+					synctest.Wait()
+					r.Count("fault.wallet_rescan", 1)
+					r.Tracef("rescan requested")
 				case "restart":
 					nw, err := s.wn.Restart(p.TxIndex)
 					if err != nil {
@@ -1057,14 +1082,14 @@ var walletComponents = map[string]string{
 	"random source (uuid account ids, issuance nonces)": "stub: plan-seeded deterministic stream",
 }
 
-const walletRule = "a wallet node (1-3 accounts: single-key and 2-of-3 / 1-of-3 multisig, several addresses) proposes a warm-up chain whose epoch rewards pay its accounts, then 5-16 drawn steps: own blocks and competing branches (forked up to 6 produced blocks back, built on a second node, long enough to win) carrying harness-built pay / receive / pay-out / vote / veto / retire / issue / chained transactions over wallet-owned coinbase, normal and vote outputs; the wallet updater is held at its commit point during deliveries and released completely, a few commits at a time, or late; new addresses appear mid-run; "
+const walletRule = "a wallet node (1-3 accounts: single-key and 2-of-3 / 1-of-3 multisig, several addresses) proposes a warm-up chain whose epoch rewards pay its accounts, then 5-16 drawn steps: own blocks and competing branches (forked up to 6 produced blocks back, built on a second node, long enough to win) carrying harness-built pay / receive / pay-out / vote / veto / retire / issue / chained transactions over wallet-owned coinbase, normal and vote outputs; the wallet updater is held at its commit point during deliveries and released completely, a few commits at a time, or late; new addresses appear mid-run; a rescan of the wallet is requested at drawn points, also while the updater is held and a competing branch arrives before the rescan has caught up; "
 
 // SpecC24: wallet UTXOs depend only on the main chain.
 func SpecC24() simkit.Spec {
 	return simkit.Spec{
 		Prop: "C24", Gen: genWallet, NewPlan: func() any { return &WalletPlan{} }, Exec: execWallet(true, false),
 		Rule:       walletRule + "oracle whenever the wallet's status equals the chain's best block: the wallet's UTXO records under both key prefixes = unspent outputs paying harness-recorded wallet programs found by scanning the node's main chain from genesis (id, asset, amount, program, account, vote key, source); the per-account and vote listings agree; non-trivial = a reorganisation detached at least one block creating or spending a wallet output before an evaluation; distinct = hash of the trace",
-		Components: walletComponents, FaultKinds: []string{"fault.wallet_held", "fault.wallet_stepped"},
+		Components: walletComponents, FaultKinds: []string{"fault.wallet_held", "fault.wallet_stepped", "fault.wallet_rescan", "fault.wallet_restart"},
 		Probes:      []string{"probe.reorg", "probe.reorg_to_shorter", "probe.detach_wallet_block", "probe.detach_wallet_output", "probe.detach_wallet_spend", "probe.detach_wallet_vote_output", "probe.detach_wallet_veto", "probe.lagged_sync"},
 		Assumptions: []string{"outputs paid to an address before the address existed are out of scope (addresses are created before anything pays them)", "the wallet observes the chain only at instants where the chain is quiescent (deliveries happen while the wallet is held at its commit point)"},
 	}
